@@ -69,6 +69,7 @@ Arity(k) == CASE k \in {"int", "none", "true", "false", "name"} -> 0
               [] k \in {"ifexp", "lt2", "and3", "or3"} -> 3
 
 Expr == case.expr
+\* (name 5 is a variable of the condition named like a builtin - `id` - and bound to None)
 Env(i) == case.env[i]
 
 \* position just after the subtree that starts at p
